@@ -1170,6 +1170,8 @@ pub(crate) mod cwire {
             K: Borrow<Q>,
             Q: Hash + Eq + ?Sized,
         {
+            // the stand-in reads the key through its memory layout: refuse anything that is not the (u64, u8) pair
+            assert!(core::mem::size_of_val(k) == core::mem::size_of::<(u64, u8)>(), "UNSUPPORTED: move-cache key is not a (u64, u8) pair any more");
             unsafe {
                 GET_KEY = *(k as *const Q as *const u8 as *const (u64, u8));
                 GET_CALLS += 1;
@@ -1186,6 +1188,7 @@ pub(crate) mod cwire {
     }
     /// stand-in for lru::LruCache::put: records the key
     pub fn lru_put<K: Hash + Eq, V, S: BuildHasher>(_c: &mut LruCache<K, V, S>, k: K, v: V) -> Option<V> {
+        assert!(core::mem::size_of::<K>() == core::mem::size_of::<(u64, u8)>(), "UNSUPPORTED: move-cache key is not a (u64, u8) pair any more");
         unsafe {
             PUT_KEY = *(&k as *const K as *const u8 as *const (u64, u8));
             PUT_CALLS += 1;
